@@ -92,6 +92,8 @@ func c14copyChild(in Sx) Sx {
 				res = N(2)
 			}
 		}()
+		unix.Access(c14MarkBegin, 0) // markers for kind 1405 (the run under strace)
+		defer unix.Access(c14MarkEnd, 0)
 		if err := fscopy.Copy(context.Background(), srcRoot, src, dstRoot, dst, fscopy.WithCopyInfo(ci)); err != nil {
 			res = N(1)
 			if os.Getenv("C14_DEBUG") != "" {
@@ -468,6 +470,41 @@ func c14GenCopy(g *Gen) {
 		if chain {
 			srcArg, dstArg = c14cChain(r, add)
 		}
+		// flavour "overlapping roots": srcRoot = dstRoot, dstRoot below srcRoot, srcRoot below dstRoot
+		// (arguments chosen so that the copy does not nest into itself without end)
+		sRoot, dRoot := "/src", "/dst"
+		overlap := !deferred && !chain && !relink && r.Chance(10)
+		if overlap {
+			switch r.Intn(4) {
+			case 0:
+				sRoot, dRoot = "/src", "/src"
+				if r.Chance(50) {
+					srcArg, dstArg = Pick(r, []string{"a", "b", "d", "a/b", "l"}), Pick(r, []string{"c", "f", "new", "new/sub", "c/new", "f/"})
+				} else {
+					srcArg, dstArg = Pick(r, []string{"a", "b", "?", "*", "a/*", "d"}), Pick(r, []string{"/", ".", ""})
+				}
+			case 1:
+				sRoot, dRoot = "/dst", "/dst"
+				// (Copy expands the wildcards after it has created the destination path: with one root a
+				// created top-level directory would be a match the harness has not seen)
+				srcArg = Pick(r, []string{"a", "b", "?", "*", "a/*", "d", "l"})
+				if strings.ContainsAny(srcArg, "*?") {
+					dstArg = Pick(r, []string{"/", "."})
+				} else {
+					dstArg = Pick(r, []string{"/", ".", "new", "zz/y"})
+				}
+			case 2:
+				sRoot, dRoot = "/src", "/src/sub"
+				add(L(N(5), S("/src/sub"), N(0755)))
+				c14cPopulate(r, &ops, "/src/sub", "T", r.Intn(5))
+				srcArg, dstArg = Pick(r, []string{"a", "b", "d", "l", "f", "a/b", "?", "[a-f]", "a/*", "l/f"}), Pick(r, dstArgs)
+			default:
+				sRoot, dRoot = "/src/sub", "/src"
+				add(L(N(5), S("/src/sub"), N(0755)))
+				c14cPopulate(r, &ops, "/src/sub", "T", 2+r.Intn(6))
+				srcArg, dstArg = Pick(r, []string{"/", ".", "a", "*", "?/*", "b", "d"}), Pick(r, []string{"c", "new", "a", "/", "l", "new/sub", "."})
+			}
+		}
 		wild := strings.ContainsAny(srcArg, "*?[") || r.Chance(10)
 		opt := func(p int, x Sx) Sx {
 			if r.Chance(p) {
@@ -476,12 +513,12 @@ func c14GenCopy(g *Gen) {
 			return L()
 		}
 		var inc, exc []Sx
-		if r.Chance(35) {
+		if !overlap && r.Chance(35) {
 			for k := 0; k < 1+r.Intn(2); k++ {
 				inc = append(inc, S(c14cPattern(r)))
 			}
 		}
-		if r.Chance(20) {
+		if !overlap && r.Chance(20) {
 			for k := 0; k < 1+r.Intn(2); k++ {
 				exc = append(exc, S(c14cPattern(r)))
 			}
@@ -505,13 +542,20 @@ func c14GenCopy(g *Gen) {
 		if chain {
 			always = r.Chance(85)
 		}
+		if overlap {
+			always = r.Chance(50)
+		}
 		o := L(Bool(r.Chance(50)), Bool(wild), Bool(always), Bool(dirContents),
 			opt(25, L(N(uint64(Pick(r, []int{0, 1000, 7}))), N(uint64(Pick(r, []int{0, 1000, 9}))))),
 			opt(map[bool]int{false: 25, true: 90}[chain], L(N(c14OldTime+5000000000))),
 			opt(20, L(N(uint64(Pick(r, []int{0700, 0751, 0644, 02750}))))),
 			L(inc...), L(exc...))
-		in := L(L(ops...), S("/src"), S(srcArg), S("/dst"), S(dstArg), o)
+		in := L(L(ops...), S(sRoot), S(srcArg), S(dRoot), S(dstArg), o)
 		out := g.Emit(0x1404, in, l1+l2 >= 2, fmt.Sprintf("copyfs follow=%v wild=%v", o.L[0].IsTrue(), wild))
+		if g.Thorough() && i%20 == 7 {
+			// the same input once more under strace: the flavours of the metadata calls (kind 1405)
+			g.Emit(0x1405, in, l1+l2 >= 2, "copyfs-strace")
+		}
 		if len(inc)+len(exc) > 0 {
 			g.classes["copyfs-patterns"]++
 		}
@@ -523,6 +567,9 @@ func c14GenCopy(g *Gen) {
 		}
 		if chain {
 			g.classes["copyfs-created-chain"]++
+		}
+		if overlap {
+			g.classes["copyfs-overlapping-roots"]++
 		}
 		if len(out.L) == 7 && out.L[3].Kind == 'n' {
 			switch out.L[3].Int() {
